@@ -24,6 +24,7 @@ the repaired code and `C15_wred_between_*` hold for every call site:
 import HermesProofs.SoilParamsGw
 import HermesProofs.SoilParamsPtf
 import HermesProofs.Ptf4Cert
+import HermesProofs.SourceTie
 namespace Hermes.SoilParams
 
 /-! ### explicit values -/
@@ -275,5 +276,39 @@ theorem C15_ptf4_ordered (c ton ssand : ℚ) (hc0 : 0 ≤ c) (hc6 : c ≤ 6) (ht
 
 example : 0 < (ptf4 (0 : ℚ) 10 85).2 ∧ (ptf4 (0 : ℚ) 10 85).2 < (ptf4 (0 : ℚ) 10 85).1 ∧ (ptf4 (0 : ℚ) 10 85).1 < 1 :=
   C15_ptf4_ordered 0 10 85 (by norm_num) (by norm_num) (by norm_num) (by norm_num) (by norm_num) (by norm_num)
+
+
+/-! ### the same four statements about the Go SOURCE of the pedotransfer functions
+
+`Generated.Src.PTF1 … PTF4` are regenerated from hermes/input.go on every run by the translator
+(harness/cmd/extract/translate_facts.go); `SourceTie.ptf*_eq_source` proves that the hand-written model equals the
+translation.  So these theorems are re-checked against what the code says now. -/
+
+theorem C15_ptf1_source_ordered (c ton sluf : ℚ) (hc0 : 0 ≤ c) (hc6 : c ≤ 6) (ht : 5 ≤ ton) (hs : 5 ≤ sluf)
+    (hsand : 5 ≤ 100 - ton - sluf) :
+    0 < (Generated.Src.PTF1 c ton sluf).2 ∧ (Generated.Src.PTF1 c ton sluf).2 < (Generated.Src.PTF1 c ton sluf).1 ∧
+      (Generated.Src.PTF1 c ton sluf).1 < 1 := by
+  rw [← SourceTie.ptf1_eq_source]; exact C15_ptf1_ordered c ton sluf hc0 hc6 ht hs hsand
+
+theorem C15_ptf2_source_ordered (c ton sluf : ℚ) (hc0 : 0 ≤ c) (hc6 : c ≤ 6) (ht : 5 ≤ ton) (hs : 5 ≤ sluf)
+    (hsand : 5 ≤ 100 - ton - sluf) :
+    0 < (Generated.Src.PTF2 c ton sluf).2 ∧ (Generated.Src.PTF2 c ton sluf).2 < (Generated.Src.PTF2 c ton sluf).1 ∧
+      (Generated.Src.PTF2 c ton sluf).1 < 1 := by
+  rw [← SourceTie.ptf2_eq_source]; exact C15_ptf2_ordered c ton sluf hc0 hc6 ht hs hsand
+
+theorem C15_ptf3_source_ordered (c ton sluf : ℚ) (hc0 : 0 ≤ c) (hc6 : c ≤ 6) (ht : 5 ≤ ton) (hs : 5 ≤ sluf)
+    (hsand : 5 ≤ 100 - ton - sluf) :
+    0 < (Generated.Src.PTF3 c ton sluf).2 ∧ (Generated.Src.PTF3 c ton sluf).2 < (Generated.Src.PTF3 c ton sluf).1 ∧
+      (Generated.Src.PTF3 c ton sluf).1 < 1 := by
+  rw [← SourceTie.ptf3_eq_source]; exact C15_ptf3_ordered c ton sluf hc0 hc6 ht hs hsand
+
+theorem C15_ptf4_source_ordered (c ton ssand : ℚ) (hc0 : 0 ≤ c) (hc6 : c ≤ 6) (ht : 5 ≤ ton) (hs : 5 ≤ ssand)
+    (hs85 : ssand ≤ 85) (hsilt : 5 ≤ 100 - ton - ssand) :
+    0 < (Generated.Src.PTF4 c ton ssand).2 ∧ (Generated.Src.PTF4 c ton ssand).2 < (Generated.Src.PTF4 c ton ssand).1 ∧
+      (Generated.Src.PTF4 c ton ssand).1 < 1 := by
+  rw [← SourceTie.ptf4_eq_source]; exact C15_ptf4_ordered c ton ssand hc0 hc6 ht hs hs85 hsilt
+
+example : 0 < (Generated.Src.PTF4 (0 : ℚ) 10 85).2 :=
+  (C15_ptf4_source_ordered 0 10 85 (by norm_num) (by norm_num) (by norm_num) (by norm_num) (by norm_num) (by norm_num)).1
 
 end Hermes.SoilParams
